@@ -62,7 +62,7 @@ def dedupeIRIs (rs ignored : List Iri) : List Iri :=
 def getInbox (F : TFacts) (t : J) : Prog Iri :=
   if !has F t "inbox" then .fail .lib
   else match t.get? "inbox" with
-    | none => .panic "getInbox: ToId(nil inbox property)"
+    | none => .fail .lib
     | some j => liftLib (toId F (elemOf F j))
 
 def getInboxes (F : TFacts) (ts : List J) : Prog (List Iri) :=
@@ -79,7 +79,7 @@ def fwdVals1 (F : TFacts) (o : J) (p : String) : List J × List Iri :=
       match elemOf F j with
       | .emb v => (acc.1 ++ [v], acc.2)
       | .iri u => (acc.1, acc.2 ++ [u])
-      | .other _ => (acc.1, acc.2 ++ [nilIri])) ([], [])
+      | .other _ => acc) ([], [])
 
 def getInboxForwardingValues (F : TFacts) (o : J) : List J × List Iri :=
   ["inReplyTo", "tag", "object", "target"].foldl (fun (acc : List J × List Iri) p =>
@@ -253,7 +253,7 @@ def docVal (d : Doc) : Prog J :=
 /-- the actor property of a fetched activity (`objActors.Begin()` on nil is a nil dereference) -/
 def undoObjActors (t : J) : Prog (List J) :=
   match rawList t "actor" with
-  | none => Prog.panic "undo: objActors.Begin() on nil actor property"
+  | none => Prog.fail .lib
   | some xs => pure xs
 
 /-- what the Undo check does with a fetched document: every actor of it must be among `actorIds` -/
@@ -274,7 +274,7 @@ def undoLoop (F : TFacts) (actorIds : List Iri) (box : Iri) (op : List J) : Prog
 
 def undoActorElems (actors : Option (List J)) : Prog (List J) :=
   match actors with
-  | none => Prog.panic "undo: actors.Begin() on nil actor property"
+  | none => Prog.fail .lib
   | some xs => pure xs
 
 def mustHaveActivityActorsMatchObjectActors (F : TFacts) (actors : Option (List J)) (op : List J) (box : Iri) : Prog Unit := do
